@@ -215,6 +215,21 @@ def operand_checks(ctx) -> None:
     cmp_init = prog.func(f'{SERIES}:Comparison.__init__')
     text = core.src(cmp_init.node)
     ctx.check('Numeric.match(o.kind)' in text and 'o.kind == operands[0].kind' in text and 'GrammarError' in text, 'C07.operands', cmp_init, 'comparison operands must be all numeric or of one kind', cmp_init.node, key='Comparison.__init__')
+    # ... as a disjunction of two *universally quantified* conditions: all numeric, or all of the first operand's kind. Folding
+    # the disjunction into one quantifier (all(numeric(o) or same(o))) accepts mixed pairs such as (String, Integer)
+    raises = [r for r in core.walk_local(cmp_init.node) if isinstance(r, ast.Raise)]
+    okq = False
+    if len(raises) == 1:
+        gs = cfg.cguards(raises[0], cmp_init.node)
+        if len(gs) == 1 and gs[0][1] is False:
+            try:
+                t = ast.parse(gs[0][0], mode='eval').body
+            except SyntaxError:
+                t = None
+            if isinstance(t, ast.BoolOp) and isinstance(t.op, ast.Or) and len(t.values) == 2 and all(isinstance(v, ast.Call) and core.call_name(v) == 'all' and len(v.args) == 1 and isinstance(v.args[0], ast.GeneratorExp) and not isinstance(v.args[0].elt, ast.BoolOp) and not v.args[0].generators[0].ifs for v in t.values):
+                elts = sorted(core.src(v.args[0].elt) for v in t.values)
+                okq = any('Numeric.match(' in e for e in elts) and any('.kind == operands[0].kind' in e or 'operands[0].kind ==' in e for e in elts)
+    ctx.check(okq, 'C07.operands', cmp_init, 'the operand test is `all numeric` OR `all of the first operand\'s kind` - two separate quantifiers, refused otherwise', raises[0] if raises else cmp_init.node, key='Comparison.__init__:quantifiers')
     ar_init = prog.func(f'{SERIES}:Arithmetic.__init__')
     text = core.src(ar_init.node)
     ctx.check('not all(' in text and 'Numeric.match(o.kind)' in text and 'GrammarError' in text, 'C07.operands', ar_init, 'arithmetic operands must be numeric', ar_init.node, key='Arithmetic.__init__')
@@ -259,7 +274,26 @@ def r_attr(ctx, tenv) -> None:
     ctx.check('enumerate(self.features)' in text and '.kind' in text, 'C07.schema', sch, 'schema lists the output features in order with their kinds', sch.node, key='schema:order')
 
 
+def element_scope(ctx) -> None:
+    """Membership of a condition / selection in the features of its source is judged over *elements* (every origin-bound
+    feature, including those bound to a reference), never over plain table columns only."""
+    n = shared.r_element(ctx, [f'{FRAME}:Join.__new__', f'{FRAME}:Query.__new__', f'{FRAME}:Query.__new__.ensure_subset'] if ctx.prog.has_func(f'{FRAME}:Query.__new__.ensure_subset') else [f'{FRAME}:Join.__new__', f'{FRAME}:Query.__new__'], rule='R-ELEMENT')
+    ctx.floor('R-ELEMENT', n, 3)
+    element = ctx.prog.cls(f'{SERIES}:Element')
+    for ref in (f'{FRAME}:Join.__new__', f'{FRAME}:Query.__new__'):
+        fn = ctx.prog.func(ref)
+        for c in core.calls_in(fn.node):
+            if isinstance(c.func, ast.Attribute) and c.func.attr == 'dissect':
+                recv = ctx.prog.resolve_expr(fn, c.func.value)
+                ctx.check(recv is element, 'R-ELEMENT', fn, f'`{core.src(c)[:60]}`: subset validation dissects into Elements (a Column-only view skips reference-bound elements, so foreign references pass)', c)
+    jn = ctx.prog.func(f'{FRAME}:Join.__new__')
+    sub = [c for c in core.calls_in(jn.node) if isinstance(c.func, ast.Attribute) and c.func.attr == 'issubset']
+    ok = len(sub) == 1 and 'dissect(condition)' in core.src(sub[0].func.value) and core.src(sub[0].args[0]).endswith('dissect(*left.features, *right.features)')
+    ctx.check(ok, 'C07.join', jn, 'the join condition is checked against the elements of both joined sides', sub[0] if sub else jn.node, key='Join:subset')
+
+
 def run(ctx) -> None:
+    element_scope(ctx)
     tenv = types.TypeEnv(ctx.prog)
     query_sanitisers(ctx)
     join_set(ctx)
